@@ -524,7 +524,7 @@ def run(tier):
         for b in bad:
             hexa, lower, nb, base, v, s, e = b
             key = 'C02/number/base=%s/nb=%d/value=%d' % (base, nb, v)
-            if key in seen:
+            if key in seen or len(seen) >= 12:
                 continue
             seen.add(key)
             rep.violation(key, '_num_str(%d, %d, %r) = %r evaluates to %r: not a %d-byte operand the assembler accepts' % (v, nb, base, s, e, nb),
